@@ -116,6 +116,15 @@ func (g *G) flush() {
 	g.pend[top] = nil
 }
 
+func (g *G) anyPending() bool {
+	for _, p := range g.pend {
+		if len(p) != 0 {
+			return true
+		}
+	}
+	return false
+}
+
 func (g *G) pending() bool { return len(g.pend[len(g.pend)-1]) != 0 }
 
 // canNewline: a newline token may be written here.
@@ -184,6 +193,23 @@ func (g *G) closeSep() {
 	}
 	g.optBlank()
 	g.b.WriteString("; ")
+}
+
+// closeSepList closes a compound list in front of then / do / fi / done / }: like closeSep, or with
+// "&" (the last and-or list is asynchronous: "while a & do", "if a &\nthen").
+func (g *G) closeSepList() {
+	if g.S.Chance(1, 7) && (!g.pending() || g.O.MultiLine && g.canNewline()) {
+		g.optBlank()
+		g.b.WriteString("&")
+		if g.O.MultiLine && g.canNewline() && (g.pending() || g.S.Chance(1, 2)) {
+			g.optBlank()
+			g.newline()
+			return
+		}
+		g.b.WriteString(" ")
+		return
+	}
+	g.closeSep()
 }
 
 func (g *G) name() string { return g.S.Pick(varNames) }
@@ -352,14 +378,64 @@ func (g *G) arithExp() {
 	if g.O.MultiByte {
 		pool = append(pool, "é + 1", " \"é\" + 1 ", "日本+x", "'é' * 2")
 	}
-	g.b.WriteString(g.S.Pick(pool))
+	if g.S.Chance(1, 3) {
+		g.b.WriteString(g.arithCompose(true))
+	} else {
+		g.b.WriteString(g.S.Pick(pool))
+	}
 	g.b.WriteString("))")
+}
+
+// arithCompose builds an arithmetic expression from operands (numbers, names, parameter expansions in
+// all forms including empty words, nested arithmetic, parentheses) with varying blanks around the operators.
+func (g *G) arithCompose(hash bool) string {
+	atoms := []string{"1", "23", "x", "y", "$x", "${x}", "${x-}", "${y+}", "${x:-3}", "${x-2}", "${y=}", "${x:+}", "${x?}", "$((1))", "$(( x ))", "$1", "${2}"}
+	if hash {
+		// (not where go.sh lexes "((" as nested subshells: there parentheses and '#' mean something else)
+		atoms = append(atoms, "( 1 + 2 )", "(x)", "${x#}", "${x%}", "${#x}", "${x##}", "${x%%}")
+	}
+	ops := []string{"+", "-", "*", "/", "%", "==", "!=", "&&", "||", "&", "|", "^", ","}
+	var b strings.Builder
+	b.WriteString(g.S.Pick([]string{"", " ", "  "}))
+	n := g.S.Range(2, 4)
+	for i := 0; i < n; i++ {
+		if i > 0 {
+			sp := g.S.Pick([]string{"", " ", " ", "  "})
+			b.WriteString(sp + g.S.Pick(ops) + g.S.Pick([]string{"", " ", " ", "  "}))
+		}
+		b.WriteString(g.S.Pick(atoms))
+	}
+	b.WriteString(g.S.Pick([]string{"", " ", "  "}))
+	return b.String()
 }
 
 // cmdSubst writes $( list ) or `list`.
 func (g *G) cmdSubst() {
 	g.depth++
 	defer func() { g.depth-- }()
+	if !g.inBackquote && g.inCmdSubst == 0 && g.O.Heredocs && g.O.MultiLine && g.canNewline() && !g.anyPending() && g.S.Chance(1, 10) {
+		// backquotes around a command with here-documents: the bodies (which may hold backquotes themselves:
+		// go.sh reads body lines whole) come before the closing backquote
+		g.inBackquote = true
+		g.inCmdSubst++
+		g.pend = append(g.pend, nil)
+		g.b.WriteString("`")
+		g.b.WriteString(g.S.Pick(cmdNames))
+		n := g.S.Range(1, 2)
+		for i := 0; i < n; i++ {
+			g.b.WriteString(" ")
+			g.heredoc()
+		}
+		if g.S.Chance(1, 3) {
+			g.b.WriteString(" | tr a b")
+		}
+		g.newline()
+		g.b.WriteString("`")
+		g.pend = g.pend[:len(g.pend)-1]
+		g.inCmdSubst--
+		g.inBackquote = false
+		return
+	}
 	if !g.inBackquote && g.inCmdSubst == 0 && g.S.Chance(1, 4) {
 		// backquotes: never nested into anything, content without backquotes, single line
 		g.inBackquote = true
@@ -696,32 +772,32 @@ func (g *G) command() {
 		g.b.WriteString("{")
 		g.sepAfterOpen()
 		g.list(g.S.Range(1, 3), false)
-		g.closeSep()
+		g.closeSepList()
 		g.b.WriteString("}")
 		g.compoundRedirs()
 	case 2: // if
 		g.b.WriteString("if ")
 		g.list(g.S.Range(1, 2), false)
-		g.closeSep()
+		g.closeSepList()
 		g.b.WriteString("then")
 		g.sepAfterOpen()
 		g.list(g.S.Range(1, 2), false)
 		for g.S.Chance(1, 4) {
-			g.closeSep()
+			g.closeSepList()
 			g.b.WriteString("elif ")
 			g.list(1, false)
-			g.closeSep()
+			g.closeSepList()
 			g.b.WriteString("then")
 			g.sepAfterOpen()
 			g.list(1, false)
 		}
 		if g.S.Chance(1, 3) {
-			g.closeSep()
+			g.closeSepList()
 			g.b.WriteString("else")
 			g.sepAfterOpen()
 			g.list(g.S.Range(1, 2), false)
 		}
-		g.closeSep()
+		g.closeSepList()
 		g.b.WriteString("fi")
 		g.compoundRedirs()
 	case 3, 4: // while / until
@@ -731,11 +807,11 @@ func (g *G) command() {
 			g.b.WriteString("until ")
 		}
 		g.list(1, false)
-		g.closeSep()
+		g.closeSepList()
 		g.b.WriteString("do")
 		g.sepAfterOpen()
 		g.list(g.S.Range(1, 2), false)
-		g.closeSep()
+		g.closeSepList()
 		g.b.WriteString("done")
 		g.compoundRedirs()
 	case 5: // for
@@ -765,7 +841,7 @@ func (g *G) command() {
 		g.b.WriteString("do")
 		g.sepAfterOpen()
 		g.list(g.S.Range(1, 2), false)
-		g.closeSep()
+		g.closeSepList()
 		g.b.WriteString("done")
 		g.compoundRedirs()
 	case 6: // case
@@ -831,7 +907,7 @@ func (g *G) command() {
 			g.b.WriteString(" ")
 			g.b.WriteString("{ ")
 			g.list(1, false)
-			g.closeSep()
+			g.closeSepList()
 			g.b.WriteString("}")
 			g.compoundRedirs()
 		} else {
@@ -839,9 +915,10 @@ func (g *G) command() {
 		}
 	case 8: // arithmetic command
 		if g.O.ArithCmd {
+			recognised := g.inCmdSubst == 0 && !g.inBackquote && g.inSubshell == 0 && !strings.Contains(g.b.String(), "(")
 			g.b.WriteString("((")
 			apool := []string{" x + 1 ", "x=1", " x = y * 2 ", "x++", "1"}
-			if g.inCmdSubst == 0 && !g.inBackquote && g.inSubshell == 0 && !strings.Contains(g.b.String(), "(") {
+			if recognised {
 				// go.sh does not recognise "((" inside a command substitution or a subshell (and its parenthesis counter is upset by a case inside a subshell; grammar deviations, C02): there the
 				// text is lexed as nested subshells, so operators that look like redirections or comments stay out
 				apool = append(apool, " n <<= 1 ", " x < y ", " a >> 2 ", " n = 16#ff ", "1<<2")
@@ -849,7 +926,11 @@ func (g *G) command() {
 			if g.O.MultiByte {
 				apool = append(apool, " é + 1 ", "\"é\" + x")
 			}
-			g.b.WriteString(g.S.Pick(apool))
+			if g.S.Chance(1, 3) {
+				g.b.WriteString(g.arithCompose(recognised))
+			} else {
+				g.b.WriteString(g.S.Pick(apool))
+			}
 			g.b.WriteString("))")
 		} else {
 			g.simpleCmd()
